@@ -153,6 +153,6 @@ static inline void c02_init(size_t k, size_t j)
 {
     g_k = k; g_j = j; g_thrown = 0; g_solo = 0; g_solo2 = 0;
     g_lt_wbase = 0; g_lt_wlo[0] = g_lt_whi[0] = g_lt_wlo[1] = g_lt_whi[1] = 0;
-    g_blk_cnt = 0; g_alloc_calls = 0; g_dealloc_calls = 0; g_lex_m = 0;
+    g_blk_cnt = 0; g_alloc_calls = 0; g_dealloc_calls = 0; g_lex_m = 0; g_eq_it = 0;
 }
 #endif
